@@ -53,7 +53,7 @@ class C01(Prop):
                "aioswitcher.device.tools:sign_packet_with_crc_key", "aioswitcher.api.remotes:SwitcherBreezeCommand.__init__",
                "aioswitcher.api:SwitcherType2Api._control_breeze_swing_device", "aioswitcher.api:SwitcherType1Api.create_schedule"]
     min_evaluations = {"quick": 30_000, "thorough": 300_000}
-    budget_s = {"quick": 60, "thorough": 900}
+    budget_s = {"quick": 300, "thorough": 900}
 
     def selftest(self):
         crc_and_frames()
@@ -93,17 +93,17 @@ class C01(Prop):
         from ..ref import crc as _crc
         from ..selftest import DEV, KEY, TS
 
-        targets = [0xFFFF, 0x0000, 0x00FF, 0xFF00, 0xFFFE, 0x0001, 0x8000, 0x7FFF, 0xFEF0, 0xF0FE, 0x3030, 0x0A0A, 0x1021, 0x1D0F, 0x0100, 0x00FE]
-        target = targets[case["shard"] % len(targets)]
+        targets = [0xFFFF, 0x0000, 0x00FF, 0xFF00, 0xFFFE, 0x0001, 0x8000, 0x7FFF, 0xFEF0, 0xF0FE, 0x3030, 0x0A0A, 0x1021, 0x2110, 0x1D0F, 0x0F1D, 0x0100, 0x00FE,
+                   0x0080, 0x007F, 0x1000, 0x0010]
         for kind_no in (case["shard"] % len(FRAME_KINDS), (case["shard"] + 5) % len(FRAME_KINDS)):
-            k, a = FRAME_KINDS[kind_no]
-            base = bytearray(frames.build(k, bytes(4), TS, DEV, KEY, a)[:-4])
-            found = None
-            for s in range(65536):
-                base[8:10] = s.to_bytes(2, "big")
-                if _crc.crc16_fast(bytes(base)) == target:
-                    found = bytes(base)
-                    break
+          k, a = FRAME_KINDS[kind_no]
+          base = bytearray(frames.build(k, bytes(4), TS, DEV, KEY, a)[:-4])
+          by_crc = {}
+          for s in range(65536):
+              base[8:10] = s.to_bytes(2, "big")
+              by_crc.setdefault(_crc.crc16_fast(bytes(base)), bytes(base))
+          for target in targets:
+            found = by_crc.get(target)
             acc.ev()
             if found is None:
                 acc.count("crc_targets_not_reachable_with_two_session_bytes")
